@@ -37,7 +37,7 @@ def unit_sets(g, base=0):
     return []      # C1 (scaled rotations) and vectors carry no constraint
 
 
-ACTION = {"SO2": 2, "SO3": 3, "SE2": 2, "SE3": 3}
+ACTION = {"SO2": 2, "SO3": 3, "SE2": 2, "SE3": 3, "Galilei": 4}
 
 
 def witnesses(gs, which):
@@ -66,14 +66,26 @@ def witnesses(gs, which):
             add("idm", sig2, omat("m1", "GT::Dim", "GT::Dim") + omat("m2", "GT::Dim", "GT::Dim")
                 + "  m1 = GT::Identity().matrix();\n  m2 = (GT::Identity() * GT::Identity()).matrix();\n", [None, None], g.dim * g.dim, "C01",
                 "matrix(Identity) == I", ident=True)
-            base = re.match(r"^(SO2|SO3|SE2|SE3)d$", k)
+            base = re.match(r"^(SO2|SO3|SE2|SE3|Galilei)d$", k)
             if base:
                 n = ACTION[base.group(1)]
-                hom = "v.homogeneous()" if base.group(1) in ("SE2", "SE3") else "v"
+                hom = "v.homogeneous()" if base.group(1) in ("SE2", "SE3", "Galilei") else "v"
                 add("act", sig2, gin(0) + "  Eigen::Map<const Eigen::Matrix<double, %d, 1>> v(p1);\n" % n
                     + omat("m1", str(n), "1") + omat("m2", str(n), "1")
                     + "  m1 = x0 * v;\n  m2 = (x0.matrix().lazyProduct(%s)).template head<%d>();\n" % (hom, n), ["rep", "vec%d" % n], n, "C01",
                     "g * v == matrix(g) applied to the point v")
+        elif which == "C04":
+            base = re.match(r"^(SO2|SO3|SE2|SE3|Galilei)d$", k)
+            if base:
+                n = ACTION[base.group(1)]
+                hom = "v.homogeneous()" if base.group(1) in ("SE2", "SE3", "Galilei") else "v"
+                body = (gin(0) + "  Eigen::Map<const Eigen::Matrix<double, %d, 1>> v(p1);\n" % n
+                        + omat("m1", str(n), "GT::Dof") + omat("m2", str(n), "GT::Dof")
+                        + "  m1 = x0.dr_action(v);\n  const typename GT::Matrix M = x0.matrix();\n  const Eigen::Matrix<double, GT::Dim, 1> vh = %s;\n" % hom
+                        + "  for (int i = 0; i < GT::Dof; ++i) {\n    const typename GT::Matrix Mh = M.lazyProduct(GT::hat(GT::Tangent::Unit(i)));\n"
+                        + "    m2.col(i) = (Mh.lazyProduct(vh)).template head<%d>();\n  }\n" % n)
+                add("dract", sig2, body, ["rep", "vec%d" % n], n * g.dof, "C04",
+                    "dr_action(v) e_i == matrix(g) hat(e_i) [v;1]  (the derivative of (g exp(eps e_i)) v at eps = 0)")
         else:
             add("veehat", sig2, tin(0) + omat("m1", "GT::Dof", "1") + omat("m2", "GT::Dof", "1")
                 + "  m1 = GT::vee(GT::hat(t0));\n  m2 = t0;\n", ["tan", None], g.dof, "C03", "vee(hat(a)) == a")
@@ -102,7 +114,7 @@ def check_identities(rep, tier, which):
     gs = [g for g in groups.catalogue("quick")]
     if tier == "thorough":
         gs += [g for g in groups.catalogue("thorough") if g.key in ("SE_1_3d", "B_SE3d_SO2d_V3d_C1d", "B_nested", "B_commutative")]
-    rep.rule(rule, "algebraic identity holds as an exact polynomial identity modulo the representation constraints, on every path", minimum=20)
+    rep.rule(rule, "algebraic identity holds as an exact polynomial identity modulo the representation constraints, on every path", minimum={"C04": 5}.get(which, 20))
     W = witnesses(gs, which)
     facts = W.build()
     rep.cmds.append(fe.clangxx() + " " + " ".join(fe.IR_FLAGS))
